@@ -8,12 +8,24 @@ non-empty subset of those files (all subsets when there are <= 6 files, else sin
 set), the subset is pre-created with sentinel bytes (shorter or longer than the real content) and the same
 command is run with --no-clobber and with --clobber.  Everything is judged from exit status, error output
 and a byte-for-byte directory listing.
+
+The statement puts no condition on WHAT the pre-existing file is, so a second enumeration varies the kind of
+every pre-existing entry (KINDS): an empty file, a one-byte file, sentinel content shorter / longer than the
+real output, exactly the bytes a fresh run would write, a read-only file, a symbolic link to a file in
+another directory and a dangling symbolic link.  Every planted entry gets an old modification time, and
+under --no-clobber "unchanged" is judged on the whole directory entry: type, permission bits, inode, size,
+mtime, bytes, and for a link its target string and the state of the file it points to.  Under --clobber
+"completely rewritten" additionally means that the old modification time is gone.  A few runs per
+configuration are repeated in a fresh interpreter (python -m ...), so that the exit status is the one a
+calling shell sees.
 """
 
 import itertools
+import os
 import pathlib
 import random
 import shutil
+import stat
 import tempfile
 
 from . import cli_gen as g
@@ -26,10 +38,80 @@ OUT_NAME = "xxTest1.2"
 CASES = {"simple": g.case_simple, "multi": g.case_multi, "cut": g.case_cut, "haps": g.case_haps}
 
 
+# what a pre-existing output file can be (a directory in the way is out of scope)
+KINDS = ("empty", "byte", "short", "long", "same", "readonly", "symlink", "dangling")
+P2A = "tola.assembly.scripts.pretext_to_asm"
+OLD_NS = 1_000_000_000 * 10**9  # September 2001: the modification time given to everything planted
+
+
 def sentinel(kind, real):
+    if kind == "empty":
+        return b""
+    if kind == "byte":
+        return b"\n"
     if kind == "short":
         return SHORT
+    if kind == "same":
+        return real
     return STALE_LINE * (2 + len(real) // len(STALE_LINE))
+
+
+def plant(d, elsewhere, name, kind, real, writable=False):
+    """pre-create output file `name` in d as `kind`; returns the path of the link target (or None)"""
+    path = d / name
+    target = None
+    if kind in ("symlink", "dangling"):
+        elsewhere.mkdir(exist_ok=True)
+        target = elsewhere / f"target-of-{name}"
+        if kind == "symlink":
+            target.write_bytes(sentinel("long", real))
+            os.utime(target, ns=(OLD_NS, OLD_NS))
+        os.symlink(target, path)
+    else:
+        path.write_bytes(sentinel(kind, real))
+        if kind == "readonly" and not writable:
+            path.chmod(0o444)
+    os.utime(path, ns=(OLD_NS, OLD_NS), follow_symlinks=False)
+    return target
+
+
+def entry_state(path):
+    """everything observable about one directory entry, without following a link"""
+    try:
+        st = os.lstat(path)
+    except FileNotFoundError:
+        return None
+    state = {"type": stat.S_IFMT(st.st_mode), "perm": stat.S_IMODE(st.st_mode), "inode": st.st_ino, "size": st.st_size, "mtime": st.st_mtime_ns}
+    if stat.S_ISLNK(st.st_mode):
+        state["link"] = os.readlink(path)
+    elif stat.S_ISREG(st.st_mode):
+        state["bytes"] = pathlib.Path(path).read_bytes()
+    return state
+
+
+TYPE_NAMES = {stat.S_IFREG: "regular file", stat.S_IFLNK: "symbolic link", stat.S_IFDIR: "directory"}
+
+
+def alterations(before, after):
+    """differences between two entry_state() records, in words"""
+    if after is None:
+        return ["has been deleted"] if before is not None else []
+    if before is None:
+        return [f"has been created ({after['size']} bytes)"]
+    out = []
+    if before["type"] != after["type"]:
+        return [f"was a {TYPE_NAMES.get(before['type'], before['type'])} and is now a {TYPE_NAMES.get(after['type'], after['type'])}"]
+    if before.get("link") != after.get("link"):
+        out.append(f"link target changed from {before.get('link')!r} to {after.get('link')!r}")
+    if before.get("bytes") != after.get("bytes"):
+        out.append(f"content was altered ({before['size']} -> {after['size']} bytes)")
+    if before["inode"] != after["inode"]:
+        out.append("was replaced by a new file (inode changed)")
+    if before["perm"] != after["perm"]:
+        out.append(f"permission bits changed {before['perm']:o} -> {after['perm']:o}")
+    if before["mtime"] != after["mtime"]:
+        out.append("modification time changed (the file was written to)")
+    return out
 
 
 def subsets_of(names):
@@ -70,9 +152,12 @@ class Config:
         d.mkdir()
         return d
 
-    def invoke(self, d, extra):
+    def invoke(self, d, extra, process=False):
         args = ["--assembly", self.inputs[self.in_fmt], "--pretext", self.inputs["pretext"], "--output", d / f"{OUT_NAME}.{self.fmt}"]
         args.append("--write-log" if self.write_log else "--no-write-log")
+        if process:  # a fresh interpreter: the exit status is the one a calling shell or pipeline sees
+            code, out, err = g.run_subprocess(P2A, args + list(extra), cwd=d)
+            return code, out.decode(errors="replace"), err.decode(errors="replace"), None
         return g.run_pretext_to_asm(args + list(extra))
 
     def describe(self):
@@ -80,28 +165,35 @@ class Config:
 
 
 def check_subset(cfg, pre, mode, col, inp):
-    """pre: {file name: 'short' | 'long'}; mode: '--no-clobber' | '--clobber' | 'default'"""
+    """pre: {file name: one of KINDS}; mode: '--no-clobber' | '--clobber' | 'default'; inp.get('process'): fresh interpreter"""
     d = cfg.new_dir()
+    elsewhere = cfg.root / f"elsewhere{cfg.n_dirs}"
     try:
-        before = {}
+        no_clobber = mode == "--no-clobber"
+        targets = {}
         for name, kind in pre.items():
-            before[name] = sentinel(kind, cfg.fresh[name])
-            (d / name).write_bytes(before[name])
-        code, _, err, exc = cfg.invoke(d, [] if mode == "default" else [mode])
-        after = g.snapshot(d)
-        what = f"{cfg.describe()} {mode} with pre-existing {sorted(pre.items())}"
-        if mode == "--no-clobber":
+            # a file without write permission defeats --clobber for an unprivileged user: that is not the tool's fault
+            targets[name] = plant(d, elsewhere, name, kind, cfg.fresh[name], writable=not no_clobber and os.geteuid() != 0)
+        before = {name: entry_state(d / name) for name in pre}
+        before_target = {name: entry_state(t) for name, t in targets.items() if t}
+        code, _, err, exc = cfg.invoke(d, [] if mode == "default" else [mode], process=bool(inp.get("process")))
+        what = f"{cfg.describe()} {mode}{' (python -m)' if inp.get('process') else ''} with pre-existing {sorted(pre.items())}"
+        if no_clobber:
             if code == 0:
-                col.fail(f"{what}: exit status 0", inp)
-            for name, data in before.items():
-                if name not in after:
-                    col.fail(f"{what}: pre-existing file {name} has been deleted", inp)
-                elif after[name] != data:
-                    col.fail(f"{what}: pre-existing file {name} was altered ({len(data)} -> {len(after[name])} bytes)", inp)
+                col.fail(f"{what}: exit status 0 although output files already exist", inp)
+            for name, kind in pre.items():
+                diffs = alterations(before[name], entry_state(d / name))
+                if diffs:
+                    col.fail(f"{what}: pre-existing {kind} file {name} {'; '.join(diffs)}", inp)
+                if name in before_target:
+                    diffs = alterations(before_target[name], entry_state(targets[name]))
+                    if diffs:
+                        col.fail(f"{what}: the file elsewhere that the pre-existing link {name} points to {'; '.join(diffs)}", inp)
             text = err + (exc or "")
             if code != 0 and not any(name in text for name in pre):
                 col.fail(f"{what}: error output names no colliding file: {text[-200:]!r}", inp)
         else:
+            after = g.snapshot(d)
             if code != 0:
                 col.fail(f"{what}: exit status {code}: {exc or err[-200:]}", inp)
                 return
@@ -116,11 +208,68 @@ def check_subset(cfg, pre, mode, col, inp):
                         f"{stale} stale fragments survive)",
                         inp,
                     )
+                elif name in pre and os.stat(d / name).st_mtime_ns == OLD_NS:
+                    col.fail(f"{what}: pre-existing {pre[name]} file {name} still has its old modification time: it was not rewritten", inp)
     finally:
+        for name in pre:  # so that the directory can be removed whatever happened to the permissions
+            try:
+                os.chmod(d / name, 0o644)
+            except OSError:
+                pass
         shutil.rmtree(d, ignore_errors=True)
+        shutil.rmtree(elsewhere, ignore_errors=True)
 
 
-def run_config(case, fmt, write_log, in_fmt, polarities, col, stride=1, offset=0):
+def kind_assignments(names, quick, offset=0):
+    """(pre, with_clobber_run, in_fresh_interpreter) for the enumeration over the KINDS of pre-existing entries"""
+    names = sorted(names)
+    nk = len(KINDS)
+    seen = set()
+
+    def emit(pre, clobber_too=True, process=False):
+        key = (tuple(sorted(pre.items())), process)
+        if key not in seen:
+            seen.add(key)
+            yield pre, clobber_too, process
+
+    # every single file as every kind
+    for i, name in enumerate(names):
+        for j, kind in enumerate(KINDS):
+            if kind in ("short", "long"):
+                continue  # single files with these sentinels are in the first enumeration
+            yield from emit({name: kind}, clobber_too=not quick or (i + j) % 2 == 0)
+    # the whole set of one kind (if nothing but e.g. empty files is in the way, is the run stopped at all?) and mixed
+    for kind in KINDS:
+        if kind in ("short", "long") and quick:
+            continue
+        yield from emit({name: kind for name in names}, clobber_too=not quick or kind in ("empty", "symlink"))
+    for r in range(nk if not quick else 2):
+        yield from emit({name: KINDS[(i + r + offset) % nk] for i, name in enumerate(names)})
+    # the exit status as a calling process sees it: first and last file of the run's outputs, and all of them
+    picks = [{names[0]: "long"}, {names[-1]: "empty"}, {name: "byte" for name in names}]
+    for name in names:
+        if name.endswith(".log"):
+            picks.append({name: "short"})
+    for pre in picks if not quick else picks[-1:]:
+        yield from emit(pre, clobber_too=False, process=True)
+    # pairs (quick: a few of them) and, in the thorough tier, every enumerated subset with rotating kinds
+    if quick:
+        pairs = list(itertools.combinations(names, 2))
+        step = max(1, len(pairs) // 5)
+        for k, (a, b) in enumerate(pairs[offset % step :: step]):
+            yield from emit({a: KINDS[(2 * k + offset) % nk], b: ("empty", "symlink", "long", "byte")[k % 4]}, clobber_too=k % 2 == 0)
+            yield from emit({a: "empty", b: "empty"}, clobber_too=False)
+    else:
+        for k, sub in enumerate(subsets_of(names)):
+            if len(sub) < 2:
+                continue
+            for r in range(nk):
+                yield from emit({name: KINDS[(i + r) % nk] for i, name in enumerate(sub)}, clobber_too=r % 2 == 0)
+            for kind in ("empty", "symlink"):
+                yield from emit({name: kind for name in sub}, clobber_too=False)
+
+
+def run_config(case, fmt, write_log, in_fmt, polarities, col, stride=1, offset=0, quick=True):
     with tempfile.TemporaryDirectory() as root:
         cfg = Config(case, fmt, write_log, in_fmt, root)
         base = {"case": case, "fmt": fmt, "write_log": write_log, "in_fmt": in_fmt}
@@ -140,6 +289,16 @@ def run_config(case, fmt, write_log, in_fmt, polarities, col, stride=1, offset=0
                     n += 1
                     if col.full:
                         return n
+        for k, (pre, clobber_too, process) in enumerate(kind_assignments(cfg.fresh, quick, offset)):
+            for mode in ("--no-clobber", "--clobber" if k % 2 else "default")[: 2 if clobber_too else 1]:
+                inp = dict(base, pre=pre, mode=mode)
+                if process:
+                    inp["process"] = True
+                check_subset(cfg, pre, mode, col, inp)
+                col.case((case["name"], fmt, write_log, in_fmt, tuple(sorted(pre.items())), mode, process), sample=inp if k == 0 and mode == "--no-clobber" and fmt == "agp" else None)
+                n += 1
+                if col.full:
+                    return n
         return n
 
 
@@ -161,8 +320,14 @@ def run(tier, seed, **opts):
         "configurations = generated case (single- and multi-assembly outputs) x output format fa/agp/tpf x --write-log on/off "
         "(FASTA input for .fa, TPF or AGP input otherwise); for each, every non-empty subset of the fresh-directory output files "
         "(all subsets if <= 6 files, else singles, pairs, full set) pre-created with sentinels shorter / longer than the real "
-        "content, then --no-clobber and --clobber (explicit or default); non-trivial = distinct (configuration, subset, "
-        "sentinel lengths, mode)"
+        "content, then --no-clobber and --clobber (explicit or default); then the kind of the pre-existing entry is varied "
+        f"over {', '.join(KINDS)} (link targets live in another directory; everything planted gets an old mtime): every "
+        "single file as every kind, the whole set as one kind and as rotating mixed kinds, pairs (quick: about five per "
+        "configuration; thorough: every enumerated subset under all rotations of the kinds), and a few runs in a fresh "
+        "interpreter for the real exit status.  --no-clobber: non-zero exit, error names a colliding file, every planted entry "
+        "and every link target unchanged in type, permission bits, inode, size, mtime, bytes, link text.  --clobber: exit 0, "
+        "exactly the fresh-directory files with the fresh-directory bytes and no old mtime left.  "
+        "non-trivial = distinct (configuration, subset, kinds, mode, in-process or fresh interpreter)"
     )
     plan = []
     if quick:
@@ -184,12 +349,14 @@ def run(tier, seed, **opts):
     for case, fmt, wl, in_fmt, pols, stride in plan:
         if col.full:
             break
-        run_config(case, fmt, wl, in_fmt, pols, col, stride=stride, offset=seed)
+        run_config(case, fmt, wl, in_fmt, pols, col, stride=stride, offset=seed, quick=quick)
         n_cfg += 1
     return col.result(
         bounds=f"{n_cfg} configurations; subsets: all (<= 6 output files) or singles + pairs"
         + ("" if quick else "")
         + " + full set; sentinel polarity "
-        + ("one assignment per subset" if quick else "both assignments per subset"),
+        + ("one assignment per subset" if quick else "both assignments per subset")
+        + f"; kinds of pre-existing entry: {len(KINDS)} ({', '.join(KINDS)}), "
+        + ("singles x all kinds, full set x all kinds, ~5 pairs" if quick else "every enumerated subset x all rotations of the kinds"),
         exhaustive=not quick,
     )
